@@ -276,6 +276,36 @@ def run(tier, seed):
           fails.append(dict(inputs=inp, observed=f'init of the unbound module gives paths {sorted(_paths(v3))}, the original module gives {sorted(_paths(v2))}', violated='unbind-roundtrip'))
       except Exception as e:  # noqa
         fails.append(dict(inputs=inp, observed=f'the unbound module cannot be initialised again: {e!r}'[:300], violated='unbind-roundtrip'))
+    # a bound submodule that was only partially used (one collection touched) still hands out ALL its collections
+    cases += 1
+    wb = w.bind(vw)
+    wb.inner.get_variable('params', 'Dense_0')           # touches 'params' only
+    held_cols = set(wb.inner.variables.keys())
+    if not {'params', 'stats'} <= held_cols:
+      fails.append(dict(inputs=dict(program='module-as-field', check='submodule.variables after touching one collection'), observed=f'the bound submodule reports collections {sorted(held_cols)}, its subtree has params and stats', violated='submodule-subtree'))
+    else:
+      try:
+        im, iv = wb.inner.unbind()
+        if not _close(im.apply(iv, x), inner_alone):
+          fails.append(dict(inputs=dict(program='module-as-field', check='unbind of a partially used submodule'), observed='the unbound submodule computes something else on the variables it was unbound with', violated='unbind-roundtrip'))
+      except Exception as e:  # noqa
+        fails.append(dict(inputs=dict(program='module-as-field', check='unbind of a partially used submodule'), observed=f'raised {e!r}'[:300], violated='unbind-roundtrip'))
+    # a top-level child named like the collection it writes to: what init returns is what apply consumes
+    cases += 1
+
+    class NamedLikeCollection(nn.Module):
+      @nn.compact
+      def __call__(self, x):
+        y = nn.BatchNorm(use_running_average=True, name='batch_stats')(x)
+        c = self.variable('steps', 'steps', lambda: jnp.zeros(()))
+        return y + c.value
+    nm = NamedLikeCollection()
+    y_i, v_i = nm.init_with_output(key, x)
+    try:
+      if not _close(nm.apply(v_i, x), y_i):
+        fails.append(dict(inputs=dict(program='child / variable named after its collection'), observed='apply on the variables init returned gives another output', violated='apply-reproduces-init'))
+    except Exception as e:  # noqa
+      fails.append(dict(inputs=dict(program='child / variable named after its collection'), observed=f'apply rejects the variables init returned: {e!r}'[:300], violated='apply-reproduces-init'))
     # a bound submodule plugged into a new parent computes with the NEW binding
     cases += 1
     inner_bound = Stat().bind({'params': vw['params']['inner'], 'stats': vw['stats']['inner']})
